@@ -1048,6 +1048,9 @@ func TestVerifC05CacheHistory(t *testing.T) {
 						}
 					}
 				}
+				if len(names) == 0 {
+					return
+				}
 				name := rapid.SampledFrom(names).Draw(t, "opKind")
 				for _, o := range ops {
 					if o.name == name {
